@@ -380,3 +380,163 @@ func trunc(b []byte) []byte {
 	}
 	return b
 }
+
+// TestC07dec is the decoder part of C07: no byte string makes a decoder
+// panic.
+func TestC07dec(t *testing.T) {
+	if os.Getenv("VERIF_PROP") != "C07" {
+		t.Skip()
+	}
+	r := ev.StartPart("C07", "exploration", "decoders")
+	var evals int64
+	var classes sync.Map
+
+	// gbn.Deserialize: every string of length <= 3; 4-byte strings with
+	// first byte 0..7 (quick) or all 2^32 (thorough).
+	gbnCase := func(b []byte) {
+		var err error
+		var m gbn.Message
+		p, pm := safely(func() { m, err = gbn.Deserialize(b) })
+		cls := fmt.Sprintf("gbn/len=%d/ok=%v", len(b), err == nil && !p)
+		if len(b) > 0 {
+			cls += fmt.Sprintf("/t=%d", b[0])
+		}
+		classes.LoadOrStore(cls, true)
+		if p {
+			typ := -1
+			if len(b) > 0 {
+				typ = int(b[0])
+			}
+			r.Violation(fmt.Sprintf("decoder/gbn.Deserialize/panic/type=%d/len=%d", typ, len(b)),
+				fmt.Sprintf("gbn.Deserialize(%x) panics: %s", b, pm), fmt.Sprintf("%x", b))
+		}
+		_ = m
+	}
+	gbnCase(nil)
+	for a := 0; a < 256; a++ {
+		gbnCase([]byte{byte(a)})
+	}
+	parallel(256, func(a int) {
+		for b := 0; b < 256; b++ {
+			gbnCase([]byte{byte(a), byte(b)})
+			for c := 0; c < 256; c++ {
+				gbnCase([]byte{byte(a), byte(b), byte(c)})
+			}
+		}
+	})
+	atomic.AddInt64(&evals, 1+256+65536+1<<24)
+	first := 8
+	if r.Thorough() {
+		first = 256
+	}
+	parallel(first*256, func(i int) {
+		a, b := i/256, i%256
+		buf := make([]byte, 4)
+		for c := 0; c < 256; c++ {
+			for d := 0; d < 256; d++ {
+				buf[0], buf[1], buf[2], buf[3] = byte(a), byte(b), byte(c), byte(d)
+				p, pm := safely(func() { _, _ = gbn.Deserialize(buf) })
+				if p {
+					r.Violation(fmt.Sprintf("decoder/gbn.Deserialize/panic/type=%d/len=4", a),
+						fmt.Sprintf("gbn.Deserialize(%x) panics: %s", buf, pm), fmt.Sprintf("%x", buf))
+				}
+			}
+		}
+		classes.LoadOrStore(fmt.Sprintf("gbn/len=4/t=%d", a), true)
+	})
+	atomic.AddInt64(&evals, int64(first)*1<<24)
+	r.Sample(map[string]any{"decoder": "gbn.Deserialize", "input": "020001", "note": "3-byte DATA packet"})
+
+	// MsgData.Deserialize: strings <= 7 bytes over a 6-symbol alphabet and
+	// (length prefix, actual length) products.
+	alpha := []byte{0, 1, 2, 0x7f, 0x80, 0xff}
+	msgCase := func(b []byte) {
+		atomic.AddInt64(&evals, 1)
+		m := mailbox.NewMsgData(0, nil)
+		var err error
+		p, pm := safely(func() { err = m.Deserialize(b) })
+		classes.LoadOrStore(fmt.Sprintf("msgdata/len=%d/ok=%v", min(len(b), 8), err == nil && !p), true)
+		if p {
+			r.Violation(fmt.Sprintf("decoder/MsgData.Deserialize/panic/len=%d", len(b)),
+				fmt.Sprintf("MsgData.Deserialize(%x) panics: %s", trunc(b), pm), fmt.Sprintf("%x", trunc(b)))
+		}
+		if err == nil && !p && len(m.Payload) > len(b) {
+			r.Violation("decoder/MsgData.Deserialize/overread", fmt.Sprintf("payload %d bytes from %d input bytes", len(m.Payload), len(b)), fmt.Sprintf("%x", trunc(b)))
+		}
+	}
+	var rec func(prefix []byte, depth int)
+	rec = func(prefix []byte, depth int) {
+		msgCase(prefix)
+		if depth == 0 {
+			return
+		}
+		for _, a := range alpha {
+			rec(append(append([]byte{}, prefix...), a), depth-1)
+		}
+	}
+	rec(nil, 7)
+	for _, actual := range []int{0, 1, 2, 3, 4, 5, 6, 16, 255, 256, 65535, 65536, 70000} {
+		for _, pre := range []uint32{0, 1, 2, 3, 4, 5, 6, 16, 255, 256, 65535, 65536, 70000, 1<<31 - 1, 1 << 31, 1<<32 - 1} {
+			b := make([]byte, 5+actual)
+			binary.BigEndian.PutUint32(b[1:5], pre)
+			msgCase(b)
+		}
+	}
+	r.Sample(map[string]any{"decoder": "MsgData.Deserialize", "input": "00ffffffff", "note": "length prefix 2^32-1 with no payload"})
+
+	// The websocket JSON envelope: stripJSONWrapper followed by the
+	// protojson unmarshalling of a CipherBox, every string of up to 6
+	// tokens over a JSON-ish alphabet.
+	toks := []string{"{", "}", "\"result\":", "\"error\":", "\"msg\":", "\"desc\":", "\"AAEC\"", "null", ",", "\\", "\"", "[", "]", "1e999", "\"stream_id\":"}
+	depth := 4
+	if r.Thorough() {
+		depth = 5
+	}
+	var jsonN int64
+	var recJ func(prefix string, d int)
+	jsonCase := func(s string) {
+		jsonN++
+		var un string
+		var err error
+		p, pm := safely(func() { un, err = mailbox.VerifStripJSONWrapper(s) })
+		if p {
+			r.Violation("decoder/stripJSONWrapper/panic", fmt.Sprintf("stripJSONWrapper(%q) panics: %s", s, pm), s)
+			return
+		}
+		classes.LoadOrStore(fmt.Sprintf("json/strip-ok=%v", err == nil), true)
+		if err != nil {
+			return
+		}
+		p, pm = safely(func() { _, err = mailbox.VerifUnmarshalCipherBox([]byte(un)) })
+		if p {
+			r.Violation("decoder/unmarshalCipherBox/panic", fmt.Sprintf("unmarshal of %q (from %q) panics: %s", un, s, pm), s)
+		}
+		classes.LoadOrStore(fmt.Sprintf("json/unmarshal-ok=%v", err == nil), true)
+	}
+	recJ = func(prefix string, d int) {
+		jsonCase(prefix)
+		if d == 0 {
+			return
+		}
+		for _, t := range toks {
+			recJ(prefix+t, d-1)
+		}
+	}
+	recJ("", depth)
+	// wrapped forms
+	for _, inner := range []string{"", "{}", "{\"msg\":\"AAEC\"}", "{\"msg\":1}", "{\"msg\":\"@@\"}", "{\"desc\":{\"stream_id\":\"AA==\"},\"msg\":\"AAEC\"}", "[", "nul"} {
+		jsonCase("{\"result\":" + inner + "}")
+		jsonCase("{\"error\":" + inner + "}")
+		jsonCase("{\"result\":" + inner)
+	}
+	atomic.AddInt64(&evals, jsonN)
+	r.Sample(map[string]any{"decoder": "stripJSONWrapper+protojson", "input": "{\"result\":{\"msg\":\"AAEC\"}}"})
+
+	n := 0
+	classes.Range(func(k, v any) bool { n++; return true })
+	r.Set("evaluations", evals)
+	r.Set("distinct_nontrivial", n)
+	r.Set("rule", "gbn.Deserialize on every byte string of length 0..3 and on 4-byte strings (first byte 0..7 quick, all 2^32 thorough); MsgData.Deserialize on every string of length <= 7 over {00,01,02,7f,80,ff} and on (length prefix, actual length) products up to 70000 / 2^32-1; stripJSONWrapper + CipherBox unmarshalling on every concatenation of up to 4 (quick) / 5 (thorough) tokens of a 15-token JSON alphabet. distinct_nontrivial = distinct (decoder, length, type byte, accepted?) classes")
+	r.Set("exhaustive", true)
+	exitCode = r.Finish()
+}
